@@ -146,6 +146,12 @@ func runC11(c *Ctx, r *Rec) {
 		}
 		r.ok("D1-preference-agrees", construct, c.pos(st.matcherPos[tn]), "scanner pattern and grammar definition select the same whole-word matches under leftmost-first matching")
 	}
+	// a sequence of any size is accepted in every type context: no bounded collection is filled past the capacity it was created with
+	for _, fd := range c.allFuncDecls("cdcn") {
+		if fd.Body != nil {
+			checkBoundedFill(c, r, "D3-context-any-size", c.info("cdcn"), fd, "")
+		}
+	}
 	checkWholeRemainder(c, r, "D1-whole-remainder", st)
 	if parser, _ := c.impl("cdcn", "ParserLike"); parser != nil {
 		checkFreshParseState(c, r, "D5-fresh-parse-state", parser)
